@@ -253,6 +253,15 @@ def gen(rng, tier):
         sigs.append(L.g_signal(rng, descs=[d], pf=0, canonical=True))
     for _ in range(300 * mult):
         sigs.append(L.g_signal(rng, pf=rng.choice([0, 0, 3]), canonical=True))
+    # long commands: splice_command_length >= 256 needs >= 43 timed components (or ~250 immediate ones), so that the
+    # high nibble of the 12-bit length (which shares a byte with the tier) is exercised
+    for ncomp, mode in ((43, 3), (60, 3), (120, 3), (250, 2), (255, 2)):
+        for _ in range(2 * mult):
+            m = [2, L.g_bytes(rng, ncomp)] if mode == 2 else [3, [[rng.randrange(256), L.g_stime(rng)] for _ in range(ncomp)]]
+            body = [rng.randrange(2), m, L.g_break(rng, rng.randrange(3)), rng.randrange(65536), rng.randrange(256), rng.randrange(256)]
+            sg = L.g_signal(rng, cmd=[2, rng.randrange(1 << 32), [body]], descs=[], pf=0, canonical=True)
+            sg[10] = rng.choice([0xFFF, 0x0FF, 0xF00, 0, rng.randrange(4096)])   # tier: neighbours of the length nibble
+            sigs.append(sg)
     sigs = [L.with_crc(s) for s in sigs if L.fits(s)]
     data = L.serialise(sigs)
     for s, b in zip(sigs, data):
